@@ -390,6 +390,9 @@ std::string World::aggr_reply(const ReqInfo &rq, const EndpointCfg &ep, int beha
 
 std::string World::ext_reply(const ReqInfo &rq, const EndpointCfg &ep, int behav, uint64_t subseed, ReplyMeta &meta) {
 	Rng rng(sim::mix(subseed, 0xe47));
+	// behaviours that only make sense for aggregation chains are plain honest replies here
+	if (behav == B_OTHER_HASH || behav == B_BROKEN_LINK || behav == B_LC_256 || behav == B_LC_2P32 || behav == B_LOW_LEVEL || behav == B_NO_CAL) behav = B_HONEST;
+	if (behav == B_WRONG_PUB_TIME && !rq.has_pub_time) behav = B_HONEST; // any publication time answers a request that names none
 	meta = ReplyMeta();
 	meta.behav = behav;
 	uint64_t id = rq.id;
